@@ -20,11 +20,11 @@ use crate::wire::*;
 
 fn rand_bytes(seed: u64, n: usize) -> Vec<u8> { use rand::RngCore; let mut v = vec![0u8; n]; rng(seed).fill_bytes(&mut v); v }
 fn ints(v: &Value) -> Vec<u8> { v.as_array().unwrap().iter().map(|x| x.as_u64().unwrap() as u8).collect() }
-fn pkt(tag: u8, body: &[u8]) -> Vec<u8> { let mut v = vec![0xC0 | tag]; v.extend(enc_new_len(body.len(), false)); v.extend_from_slice(body); v }
-fn keylen_of(cipher: u64) -> usize { match cipher { 7 => 16, 8 => 24, _ => 32 } }
+pub fn pkt(tag: u8, body: &[u8]) -> Vec<u8> { let mut v = vec![0xC0 | tag]; v.extend(enc_new_len(body.len(), false)); v.extend_from_slice(body); v }
+pub fn keylen_of(cipher: u64) -> usize { match cipher { 7 => 16, 8 => 24, _ => 32 } }
 
 /// the secret material of an UNLOCKED secret packet body (after the public part and the usage octet 0; v4 bodies end with a checksum)
-fn plain_material(sk: &Sk) -> Result<Vec<u8>, String> {
+pub fn plain_material(sk: &Sk) -> Result<Vec<u8>, String> {
     let body = sk.body()?;
     let pubb = sk.public_body();
     if !body.starts_with(&pubb) || body.get(pubb.len()) != Some(&0) { return Err("unexpected plain secret packet layout".into()); }
@@ -91,7 +91,7 @@ fn unlock_by_plan(plans: &Plans, plan: &Value, l: &LockedLayout, pubb: &[u8], ke
     }
 }
 
-fn lock_by_plan(plans: &Plans, plan: &Value, usage: u8, cipher: u64, aead: u64, s2k: &[u8], iv: &[u8], pubb: &[u8], keyver: u8, material: &[u8], pw: &[u8]) -> Result<Vec<u8>, String> {
+pub fn lock_by_plan(plans: &Plans, plan: &Value, usage: u8, cipher: u64, aead: u64, s2k: &[u8], iv: &[u8], pubb: &[u8], keyver: u8, material: &[u8], pw: &[u8]) -> Result<Vec<u8>, String> {
     let (s2k_key, _) = s2k_exec(plans, s2k, pw, keylen_of(cipher))?;
     let v6 = keyver == 6;
     let mut out = pubb.to_vec();
@@ -130,7 +130,7 @@ fn lock_by_plan(plans: &Plans, plan: &Value, usage: u8, cipher: u64, aead: u64, 
 struct Recipient { name: String, cert: SignedSecretKey }
 
 /// ECDH public parameters read from the public key body: (oid, point, kdf hash id, kdf cipher id)
-fn ecdh_params(pubb: &[u8], v6: bool) -> Result<(Vec<u8>, Vec<u8>, u8, u8), String> {
+pub fn ecdh_params(pubb: &[u8], v6: bool) -> Result<(Vec<u8>, Vec<u8>, u8, u8), String> {
     let mut p = 6 + if v6 { 4 } else { 0 };
     let ol = pubb[p] as usize;
     let oid = pubb[p + 1..p + 1 + ol].to_vec();
@@ -143,7 +143,7 @@ fn ecdh_params(pubb: &[u8], v6: bool) -> Result<(Vec<u8>, Vec<u8>, u8, u8), Stri
     Ok((oid, point, pubb[p + 2], pubb[p + 3]))
 }
 
-fn mpi(v: &[u8]) -> Vec<u8> {
+pub fn mpi(v: &[u8]) -> Vec<u8> {
     let v: Vec<u8> = v.iter().skip_while(|b| **b == 0).cloned().collect();
     let bits = if v.is_empty() { 0 } else { v.len() * 8 - v[0].leading_zeros() as usize };
     let mut o = (bits as u16).to_be_bytes().to_vec();
@@ -152,7 +152,7 @@ fn mpi(v: &[u8]) -> Vec<u8> {
 }
 
 /// Diffie-Hellman per curve: (our secret in wire form, their public in wire form) -> Z as the RFC wants it hashed
-fn dh(curve: &str, secret_wire: &[u8], public_wire: &[u8]) -> Result<Vec<u8>, String> {
+pub fn dh(curve: &str, secret_wire: &[u8], public_wire: &[u8]) -> Result<Vec<u8>, String> {
     match curve {
         "Curve25519" => {
             // secret: big-endian MPI value of the scalar (RFC 9580 5.5.5.6.1.1: reversed native form); public: 0x40 || native
@@ -168,7 +168,7 @@ fn dh(curve: &str, secret_wire: &[u8], public_wire: &[u8]) -> Result<Vec<u8>, St
         _ => Err("curve".into()),
     }
 }
-fn dh_public(curve: &str, secret_wire: &[u8]) -> Result<Vec<u8>, String> {
+pub fn dh_public(curve: &str, secret_wire: &[u8]) -> Result<Vec<u8>, String> {
     match curve {
         "Curve25519" => { let mut s = secret_wire.to_vec(); s.reverse(); let mut v = vec![0x40]; v.extend(prim::x25519_public(&s)?); Ok(v) }
         "P256" => prim::pub_p256(secret_wire),
@@ -178,7 +178,7 @@ fn dh_public(curve: &str, secret_wire: &[u8]) -> Result<Vec<u8>, String> {
     }
 }
 
-fn ecdh_kek(plan: &Value, z: &[u8], fpr: &[u8], hash_id: u8) -> Result<Vec<u8>, String> {
+pub fn ecdh_kek(plan: &Value, z: &[u8], fpr: &[u8], hash_id: u8) -> Result<Vec<u8>, String> {
     if z.len() as u64 != plan["zlen"].as_u64().unwrap() { return Err(format!("Z is {} octets, the plan says {}", z.len(), plan["zlen"])); }
     if fpr.len() as u64 != plan["fprlen"].as_u64().unwrap() { return Err("fingerprint length".into()); }
     let mut data = ints(&plan["kdf_prefix"]);
